@@ -26,7 +26,7 @@ func TestSimHonestRun(t *testing.T) {
 func TestSimForgedVotesScript(t *testing.T) {
 	cfg := sim.Config{N: 4, Weights: []uint64{1, 1, 1, 1}, Order: []int{0, 1, 2, 3}, Rot: 0, Byz: []int{1}, MaxHeight: 1, Focus: "C01"}
 	acts := []sim.Action{
-		{K: "hold", Hold: &sim.HoldRule{Types: 1 << sim.UC, To: 0b1100, From: 0xffff}}, // COMMITs to nodes 2,3 are delayed
+		{K: "hold", Hold: &sim.HoldRule{Types: 1 << sim.UC, To: 0b1100, From: 0xffff}},              // COMMITs to nodes 2,3 are delayed
 		{K: "byz", Byz: &sim.ByzSpec{Strat: "prepare", As: 1, To: 0b1101, H: 1, V: 0, P: []int{4}}}, // Byzantine prepares for the honest proposal
 		{K: "run", N: 100},
 		{K: "byz", Byz: &sim.ByzSpec{Strat: "commit", As: 1, To: 0b0001, H: 1, V: 0, P: []int{4, 0}}},
